@@ -33,10 +33,13 @@ impl StateStorage {
     }
     fn get_state(&self, size: u64) -> &[RawVal] {
         #[cfg(mimium_verif)]
-        assert!(
-            self.pos + size as usize <= self.rawdata.len(),
-            "verif: state read out of bounds"
-        );
+        {
+            verif_log_state_access(self.pos, size as usize, 0);
+            assert!(
+                self.pos.checked_add(size as usize).is_some_and(|e| e <= self.rawdata.len()),
+                "verif: state read out of bounds"
+            );
+        }
         unsafe {
             let head = self.rawdata.as_ptr().add(self.pos);
             slice::from_raw_parts(head, size as _)
@@ -44,10 +47,13 @@ impl StateStorage {
     }
     fn get_state_mut(&mut self, size: usize) -> &mut [RawVal] {
         #[cfg(mimium_verif)]
-        assert!(
-            self.pos + size <= self.rawdata.len(),
-            "verif: state write out of bounds"
-        );
+        {
+            verif_log_state_access(self.pos, size, 1);
+            assert!(
+                self.pos.checked_add(size).is_some_and(|e| e <= self.rawdata.len()),
+                "verif: state write out of bounds"
+            );
+        }
         unsafe {
             let head = self.rawdata.as_mut_ptr().add(self.pos);
             slice::from_raw_parts_mut(head, size as _)
@@ -55,10 +61,16 @@ impl StateStorage {
     }
     fn get_as_ringbuffer(&mut self, size_in_samples: u64) -> Ringbuffer<'_> {
         #[cfg(mimium_verif)]
-        assert!(
-            self.pos + 2 + size_in_samples as usize <= self.rawdata.len(),
-            "verif: delay state out of bounds"
-        );
+        {
+            verif_log_state_access(self.pos, size_in_samples as usize, 2);
+            assert!(
+                self.pos
+                    .checked_add(2)
+                    .and_then(|e| e.checked_add(size_in_samples as usize))
+                    .is_some_and(|e| e <= self.rawdata.len()),
+                "verif: delay state out of bounds"
+            );
+        }
         let data_head = unsafe { self.rawdata.as_mut_ptr().add(self.pos) };
         Ringbuffer::new(data_head, size_in_samples)
     }
@@ -1702,6 +1714,26 @@ impl Machine {
         self.base_pointer += 1;
         self.execute(0, None)
     }
+}
+
+#[cfg(mimium_verif)]
+thread_local! {
+    static VERIF_STATE_ACCESSES: RefCell<Vec<(usize, usize, u8)>> = const { RefCell::new(Vec::new()) };
+}
+/// Record one state-storage access (cursor, size, kind: 0 read, 1 write, 2 ring buffer) for the verification tooling.
+#[cfg(mimium_verif)]
+fn verif_log_state_access(pos: usize, size: usize, kind: u8) {
+    VERIF_STATE_ACCESSES.with(|v| {
+        let mut v = v.borrow_mut();
+        if v.len() < 100_000 {
+            v.push((pos, size, kind));
+        }
+    });
+}
+/// Drain the state-storage access log of the current thread.
+#[cfg(mimium_verif)]
+pub fn verif_take_state_accesses() -> Vec<(usize, usize, u8)> {
+    VERIF_STATE_ACCESSES.with(|v| std::mem::take(&mut *v.borrow_mut()))
 }
 
 /// Accessors used only by the out-of-tree verification tooling (`--cfg mimium_verif`).
